@@ -26,6 +26,8 @@ case "${1:-}" in
   selftest)
     build_orch
     shift
+    # generators are functions of (seed, index, tier) alone and satisfy their own well-formedness guards
+    go test -count=1 -run TestGeneratorsAreFunctions ./internal/props || { echo "SELFTEST-TROUBLE: a generator is not a function of its seed"; exit 2; }
     exec "$BIN" selftest "$@" ;;
   replay)
     [ -x "$BIN" ] || build_orch
